@@ -193,6 +193,21 @@ def check_orm_shorthand(ctx: Ctx, env):
         joined = any(c[0] in ("join", "outerjoin") and c[1] and "elemof" in repr(c[1][0]) and "collected" in repr(c[1][0])
                      for c in _chain(T.norm(p.value))[1])
         key = f"sqlalchemy.apply_odata_query|{p.cond_str()[-80:]}"
+        # the loop must run over the collected relationships themselves or over a per-element selection of them; a positional selection
+        # (dropwhile / takewhile / islice) stops testing after the first element that fails, so it is not "skip exactly those already joined"
+        srcs = [repr(c[1][0]) for c in _chain(T.norm(p.value))[1] if c[0] in ("join", "outerjoin") and c[1]]
+        positional = sorted({f for s in srcs for f in ("itertools.dropwhile", "itertools.takewhile", "itertools.islice")
+                             if f"'elemof', ('call', ('ref', '{f}')" in s})
+        if positional:
+            ctx.fail("R3.join-skipped-only-if-present", "sqlalchemy.apply_odata_query|skip-test",
+                     f"the joins are taken from {positional[0]}(...) over the collected relationships: a positional cut, not a test of every "
+                     "relationship - one already joined on the query that follows a missing one is joined again (and one missing after the cut "
+                     "is never joined)", m.loc(fn), "base query joined on Comment.author; filter blogpost/title eq 'T' and author/name eq 'A'")
+            continue
+        unknown = [s for s in srcs if "'elemof', ('call', ('ref', '" in s]
+        if unknown:
+            raise AnalysisError("sqlalchemy.apply_odata_query: the joins are taken from the result of a call over the collected relationships "
+                                f"that the evaluator does not model ({unknown[0][:120]})", m.loc(fn))
         if joined:
             ctx.check(not any(v for _, v in memb), "R3.join-skipped-only-if-present", "sqlalchemy.apply_odata_query|skip-test",
                       "a relationship found among the joins already on the query is joined again", m.loc(fn))
